@@ -656,6 +656,25 @@ def bi_reversed(E, args, kwargs, node):
     raise Unsupported('reversed(%r)' % (v,))
 
 
+def bi_enumerate(E, args, kwargs, node):
+    """enumerate(seq, start=0): pairs (start + k, seq[k]); a list of known length gives a concrete list of pairs, any other
+    sequence an abstract sequence with that element model (the source object is read at iteration time, as in Python)"""
+    seq = args[0]
+    start = args[1] if len(args) > 1 else kwargs.get('start', VC(0))
+    n, get = E.iter_model(seq)
+    s0 = E.as_z3_int(start)
+    nn = n if isinstance(n, int) else smt_as_int(n)
+    if nn is not None:
+        return E.alloc(HObj(None, {'items': [VT([VI(z3.simplify(s0 + k)) if not isinstance(start, VC) else VC(start.v + k), get(k)])
+                                             for k in range(nn)]}, name='iter_list'))
+    return VSeq(E.fresh('enum'), n, kind='iter', elem_fn=lambda E_, k: VT([VI(z3.simplify(s0 + k)), get(k)]))
+
+
+def smt_as_int(t):
+    from . import smt as _smt
+    return _smt.as_py_int(t)
+
+
 def bi_float(E, args, kwargs, node):
     (v,) = args
     if isinstance(v, VC):
@@ -895,6 +914,7 @@ def bi_all_any(is_all):
     return f
 
 
+TABLE['enumerate'] = bi_enumerate
 TABLE['all'] = bi_all_any(True)
 TABLE['any'] = bi_all_any(False)
 
